@@ -66,13 +66,15 @@ class Ref:
 
 
 class SliceRef:
-    """fat pointer: elements lst[start:start+len]; lst is shared (mutation through the slice is visible)"""
-    __slots__ = ('lst', 'start', 'len')
+    """fat pointer: elements lst[start:start+len]; lst is shared (mutation through the slice is visible).
+    tail: optional z3 64-bit term = number of further opaque elements after the concrete ones (symbolic-length data)"""
+    __slots__ = ('lst', 'start', 'len', 'tail')
 
-    def __init__(self, lst, start, ln):
+    def __init__(self, lst, start, ln, tail=None):
         self.lst = lst
         self.start = start
         self.len = ln
+        self.tail = tail
 
     def items(self):
         return self.lst[self.start:self.start + self.len]
@@ -82,10 +84,12 @@ class SliceRef:
 
 
 class VecV:
-    __slots__ = ('lst',)
+    """tail: optional z3 64-bit term = number of opaque elements after lst (symbolic-length vectors, C02/C05)"""
+    __slots__ = ('lst', 'tail')
 
-    def __init__(self, lst):
+    def __init__(self, lst, tail=None):
         self.lst = lst
+        self.tail = tail
 
     def __repr__(self):
         return 'Vec(%d)' % len(self.lst)
@@ -111,6 +115,16 @@ class IterV:
         self.a = a
         self.b = b
         self.by_ref = by_ref
+
+
+class StreamV:
+    """abstract input stream for the framing checks: `head` = symbolic bytes at the front, everything after is opaque;
+    pos = number of bytes consumed so far (int or z3 64-bit term)"""
+
+    def __init__(self, head):
+        self.head = head
+        self.pos = 0
+        self.reads = []      # (length consumed) per read_exact call
 
 
 class Opaque:
@@ -191,6 +205,10 @@ def concrete(x):
 
 def BV(n, w):
     return z3.BitVecVal(n, w)
+
+
+def slice_len(x):
+    return BV(x.len, 64) if getattr(x, 'tail', None) is None else BV(x.len, 64) + x.tail
 
 
 def bool_to_bv(v, w=8):
@@ -382,6 +400,8 @@ class Exec:
         self.max_paths = 2000
         self.merge_calls = True
         self.pure_cache = {}
+        self.stubs = []
+        self.sym_len_ok = False
         self.sub_solver = z3.Solver()
         self.sub_solver.set('timeout', 10000)
         self.switch_cache = {}
@@ -1176,16 +1196,16 @@ class Exec:
                 return -x
             if op == 'PtrMetadata':
                 if isinstance(x, SliceRef):
-                    return BV(x.len, 64) if isinstance(x.len, int) else x.len
+                    return slice_len(x)
                 return UNIT
             raise Unsupported('unop %s' % op)
         if 'Len' in rv:
             cell, path, sp = self.resolve(fr, rv['Len'])
             v = self.read(cell, path, sp)
             if isinstance(v, SliceRef):
-                return BV(v.len, 64)
+                return slice_len(v)
             if isinstance(v, VecV):
-                return BV(len(v.lst), 64)
+                return BV(len(v.lst), 64) if v.tail is None else BV(len(v.lst), 64) + v.tail
             return BV(len(v.f), 64)
         if 'CopyForDeref' in rv:
             cell, path, sp = self.resolve(fr, rv['CopyForDeref'])
@@ -1575,6 +1595,10 @@ class Exec:
             raise Unsupported('indirect call')
         callee = self.p.fn(info['key'])
         self.fns_reached.add(callee['name'])
+        if self.stubs:
+            for pat, stub in self.stubs:
+                if pat in callee['name']:
+                    return stub(self, callee, args)
         if callee['body'] is None:
             if callee['kind'] == 'virtual':
                 return self.models.virtual_call(self, info, callee, args)
